@@ -3,7 +3,7 @@ import gen_tables, gen_funcs, gen_consts, gen_params
 
 
 def generate_all(snap):
-    out = {"tables": gen_tables.generate(snap), "prng": gen_funcs.gen_prng(snap), "blocking": gen_funcs.gen_blocking(snap), "consts": gen_consts.generate(snap), "popcount": gen_funcs.gen_popcount(snap), "params": gen_params.generate(snap), "symbol": gen_params.generate_symbol(snap)}
+    out = {"tables": gen_tables.generate(snap), "prng": gen_funcs.gen_prng(snap), "blocking": gen_funcs.gen_blocking(snap), "consts": gen_consts.generate(snap), "popcount": gen_funcs.gen_popcount(snap), "params": gen_params.generate(snap), "symbol": gen_params.generate_symbol(snap), "claim": gen_params.generate_claim(snap)}
     return out
 
 
